@@ -86,6 +86,11 @@ func checkC08(replay string) {
 			if st.IsStatement() && irng.Chance(1, 25) {
 				st.N.Lead = append(st.N.Lead, &gen.Ignore{Codes: base.Pick(irng, []string{"ZZ99", "IMPL02", "QQ", "CTOR02, ZZ1"})})
 				nIgn++
+			} else if st.IsStatement() && irng.Chance(1, 12) {
+				// markers BROADER than what S may name (category, ALL): what they suppress in the unrestricted run stays
+				// suppressed under every S - the exclusion list and the markers are independent
+				st.N.Lead = append(st.N.Lead, &gen.Ignore{Codes: base.Pick(irng, []string{"IMM", "ALL", "CTOR", "TONL, PKGO", "all", "imm"})})
+				nIgn++
 			}
 		}
 		files := gen.Render(bt.P, gen.RenderOpts{})
